@@ -175,13 +175,13 @@ theorem rep_zero_succ (f : Flags) (s : List Char) (a : Re) (n : Nat) (i j : Nat)
 /-- matching with IGNORECASE is matching the case-folded pattern against the case-folded subject
 (all patterns whose bracket expressions list single characters; ranges and named classes:
 `icase_range_rule`, `icase_named_rule`) -/
-theorem icase_eq_fold (nb : Bool) (s : List Char) (r : Re) (h : noRange r = true) (i j : Nat) :
-    Matches ⟨true, nb⟩ s r i j ↔ Matches ⟨false, nb⟩ (s.map fold) (foldRe r) i j :=
+theorem icase_eq_fold (nb ne : Bool) (s : List Char) (r : Re) (h : noRange r = true) (i j : Nat) :
+    Matches ⟨true, nb, ne⟩ s r i j ↔ Matches ⟨false, nb, ne⟩ (s.map fold) (foldRe r) i j :=
   matches_icase_fold h
 
 /-- the same for the search result: same start, same length -/
-theorem icase_eq_fold_matchLL (nb : Bool) (s : List Char) (r : Re) (h : noRange r = true) :
-    matchLL ⟨true, nb⟩ r s = matchLL ⟨false, nb⟩ (foldRe r) (s.map fold) :=
+theorem icase_eq_fold_matchLL (nb ne : Bool) (s : List Char) (r : Re) (h : noRange r = true) :
+    matchLL ⟨true, nb, ne⟩ r s = matchLL ⟨false, nb, ne⟩ (foldRe r) (s.map fold) :=
   matchLL_congr fun _ _ => matches_icase_fold h
 
 /-- a literal under IGNORECASE: equal after folding -/
@@ -210,57 +210,94 @@ theorem bol_iff (f : Flags) (s : List Char) (i j : Nat) :
   · rintro ⟨h1, h2, h3⟩; exact ⟨by omega, h1, h3⟩
 
 theorem eol_iff (f : Flags) (s : List Char) (i j : Nat) :
-    Matches f s .eol i j ↔ i = s.length ∧ j = s.length := by
-  simp only [Matches]; omega
+    Matches f s .eol i j ↔ i = s.length ∧ j = s.length ∧ f.noteol = false := by
+  simp only [Matches]
+  constructor
+  · rintro ⟨h1, h2, h3⟩; exact ⟨h2, by omega, h3⟩
+  · rintro ⟨h1, h2, h3⟩; exact ⟨by omega, h1, h3⟩
+
+/-- with NOTEOL `$` matches nowhere (library API flag; no hawk caller passes it) -/
+theorem noteol_eol_never (ic nb : Bool) (s : List Char) (i j : Nat) : ¬ Matches ⟨ic, nb, true⟩ s .eol i j := by
+  simp [Matches]
+
+/-- NOTEOL changes nothing for a pattern without `$` -/
+theorem noteol_irrelevant_without_eol (ic nb : Bool) (r : Re) (s : List Char) (h : noEol r = true) :
+    matchLL ⟨ic, nb, true⟩ r s = matchLL ⟨ic, nb, false⟩ r s :=
+  matchLL_congr fun _ _ => matches_noEol h
+
+/-- word assertions (TRE/GNU extension, outside POSIX; semantics transcribed from `CHECK_ASSERTIONS`): they consume
+nothing and test the characters around the position *in the subject the matcher is given* -/
+theorem wordb_iff (f : Flags) (s : List Char) (k : WordB) (i j : Nat) :
+    Matches f s (.wordb k) i j ↔ i = j ∧ i ≤ s.length ∧ wordbHolds s i k = true := by
+  simp only [Matches]
+
+/-- `\<` : no word character before, a word character at the position; `\>` the mirror image -/
+theorem bow_rule (s : List Char) (i : Nat) : wordbHolds s i .bow = (!prevW s i && nextW s i) := rfl
+theorem eow_rule (s : List Char) (i : Nat) : wordbHolds s i .eow = (prevW s i && !nextW s i) := rfl
 
 /-- with NOTBOL `^` matches nowhere -/
-theorem notbol_bol_never (ic : Bool) (s : List Char) (i j : Nat) : ¬ Matches ⟨ic, true⟩ s .bol i j := by
+theorem notbol_bol_never (ic ne : Bool) (s : List Char) (i j : Nat) : ¬ Matches ⟨ic, true, ne⟩ s .bol i j := by
   simp [Matches]
 
 /-- **NOTBOL semantics.** Matching a proper suffix `s.drop o` (`o > 0`) with NOTBOL is matching inside the
-whole subject `s` at positions shifted by `o`: `^` cannot match, `$` still means the end of `s`. -/
-theorem notbol_suffix (ic : Bool) (s : List Char) (o : Nat) (ho : 0 < o) (hol : o ≤ s.length) (r : Re) (i j : Nat) :
-    Matches ⟨ic, true⟩ (s.drop o) r i j ↔ Matches ⟨ic, false⟩ s r (o + i) (o + j) :=
-  matches_drop ho hol
+whole subject `s` at positions shifted by `o`: `^` cannot match, `$` still means the end of `s`.
+Holds for every pattern without word assertions; with `\<`/`\b` it does NOT hold (the matcher does not see the
+character before the suffix: `notbol_suffix_fails_with_word_assertion`). -/
+theorem notbol_suffix (ic ne : Bool) (s : List Char) (o : Nat) (ho : 0 < o) (hol : o ≤ s.length) (r : Re)
+    (hw : noWordB r = true) (i j : Nat) :
+    Matches ⟨ic, true, ne⟩ (s.drop o) r i j ↔ Matches ⟨ic, false, ne⟩ s r (o + i) (o + j) :=
+  matches_drop ho hol hw
+
+/-- the restriction is necessary: on the suffix `b` of `ab`, `\<b` matches (position 0 has no previous character),
+inside `ab` it does not -/
+theorem notbol_suffix_fails_with_word_assertion :
+    Matches ⟨false, true, false⟩ (['a', 'b'].drop 1) (.cat (.wordb .bow) (.chr 'b')) 0 1 ∧
+    ¬ Matches ⟨false, false, false⟩ ['a', 'b'] (.cat (.wordb .bow) (.chr 'b')) 1 2 := by
+  constructor
+  · exact (ends_sound_complete _ _ _ _ _).1 (by decide)
+  · intro h
+    have := (ends_sound_complete _ _ _ _ _).2 h
+    revert this
+    decide
 
 /-- the search on a suffix with NOTBOL (how `gsub`, `split` and `match` continue after a previous match)
 returns the leftmost-longest match of the whole subject among the starts `≥ o` -/
-theorem notbol_suffix_matchLL (ic : Bool) (s : List Char) (o : Nat) (ho : 0 < o) (hol : o ≤ s.length) (r : Re)
-    (st len : Nat) :
-    matchLL ⟨ic, true⟩ r (s.drop o) = some (st, len) ↔
-      Matches ⟨ic, false⟩ s r (o + st) (o + st + len) ∧
-      (∀ p e, o ≤ p → p < o + st → ¬ Matches ⟨ic, false⟩ s r p e) ∧
-      (∀ e, Matches ⟨ic, false⟩ s r (o + st) e → e ≤ o + st + len) := by
+theorem notbol_suffix_matchLL (ic ne : Bool) (s : List Char) (o : Nat) (ho : 0 < o) (hol : o ≤ s.length) (r : Re)
+    (hw : noWordB r = true) (st len : Nat) :
+    matchLL ⟨ic, true, ne⟩ r (s.drop o) = some (st, len) ↔
+      Matches ⟨ic, false, ne⟩ s r (o + st) (o + st + len) ∧
+      (∀ p e, o ≤ p → p < o + st → ¬ Matches ⟨ic, false, ne⟩ s r p e) ∧
+      (∀ e, Matches ⟨ic, false, ne⟩ s r (o + st) e → e ≤ o + st + len) := by
   rw [matchLL_some]
   unfold IsLL
   constructor
   · rintro ⟨h1, h2, h3⟩
     refine ⟨?_, ?_, ?_⟩
-    · have := (matches_drop ho hol).1 h1
+    · have := (matches_drop ho hol hw).1 h1
       rwa [← Nat.add_assoc] at this
     · intro p e hp1 hp2 hm
       have hb := Matches.bounds hm
       obtain ⟨p', rfl⟩ : ∃ p', p = o + p' := ⟨p - o, by omega⟩
       obtain ⟨e', rfl⟩ : ∃ e', e = o + e' := ⟨e - o, by omega⟩
-      exact h2 p' e' (by omega) ((matches_drop ho hol).2 hm)
+      exact h2 p' e' (by omega) ((matches_drop ho hol hw).2 hm)
     · intro e hm
       have hb := Matches.bounds hm
       obtain ⟨e', rfl⟩ : ∃ e', e = o + e' := ⟨e - o, by omega⟩
-      have := h3 e' ((matches_drop ho hol).2 hm)
+      have := h3 e' ((matches_drop ho hol hw).2 hm)
       omega
   · rintro ⟨h1, h2, h3⟩
     refine ⟨?_, ?_, ?_⟩
-    · apply (matches_drop ho hol).2
+    · apply (matches_drop ho hol hw).2
       rwa [← Nat.add_assoc]
     · intro p e hp hm
-      exact h2 (o + p) (o + e) (by omega) (by omega) ((matches_drop ho hol).1 hm)
+      exact h2 (o + p) (o + e) (by omega) (by omega) ((matches_drop ho hol hw).1 hm)
     · intro e hm
-      have := h3 (o + e) ((matches_drop ho hol).1 hm)
+      have := h3 (o + e) ((matches_drop ho hol hw).1 hm)
       omega
 
 /-- NOTBOL changes nothing for a pattern without `^` -/
-theorem notbol_irrelevant_without_bol (ic : Bool) (r : Re) (s : List Char) (h : noBol r = true) :
-    matchLL ⟨ic, true⟩ r s = matchLL ⟨ic, false⟩ r s :=
+theorem notbol_irrelevant_without_bol (ic ne : Bool) (r : Re) (s : List Char) (h : noBol r = true) :
+    matchLL ⟨ic, true, ne⟩ r s = matchLL ⟨ic, false, ne⟩ r s :=
   matchLL_congr fun _ _ => matches_noBol h
 
 /-! ## non-vacuity: concrete answers (these are the witnesses on which TRE's engines go wrong) -/
@@ -308,8 +345,18 @@ example : matchLL { icase := true } (.cls false [.range 'a' 'c']) ['D', 'C'] = s
 example : matchLL {} (.cls true [.range 'a' 'c', .range 'b' 'e']) ['d'] = none := by decide
 example : matchLL {} (.rep (.cls true [.named .digit]) 2 (some 2)) ['1', '2'] = none := by decide
 
+/-- NOTEOL, word assertions, the remaining named classes -/
+example : matchLL {} (.cat (.chr 'a') .eol) ['a'] = some (0, 1) := by decide
+example : matchLL { noteol := true } (.cat (.chr 'a') .eol) ['a'] = none := by decide
+example : matchLL {} (.cat (.wordb .bow) (.chr 'b')) ['a', 'b', ' ', 'b'] = some (3, 1) := by decide
+example : matchLL {} (.cat (.chr 'a') (.wordb .eow)) ['a', 'a', ' ', 'a'] = some (1, 1) := by decide
+example : matchLL {} (.cat (.wordb .wb) (.chr 'b')) ['a', 'b', '-', 'b'] = some (3, 1) := by decide
+example : matchLL {} (.cat (.chr 'a') (.wordb .nwb)) ['a', '-', 'a', 'a'] = some (2, 1) := by decide
+example : matchLL {} (.plus (.cls false [.named .punct])) ['a', '-', '_', 'b'] = some (1, 2) := by decide
+example : matchLL {} (.plus (.cls false [.named .xdigit])) ['z', 'f', 'F', '1', 'g'] = some (1, 3) := by decide
+
 /-- the hypotheses of `notbol_suffix` are satisfiable with a non-trivial match -/
-example : Matches ⟨false, true⟩ (['x', 'a', 'b'].drop 1) (.cat (.chr 'a') (.cat (.chr 'b') .eol)) 0 2 :=
+example : Matches ⟨false, true, false⟩ (['x', 'a', 'b'].drop 1) (.cat (.chr 'a') (.cat (.chr 'b') .eol)) 0 2 :=
   (ends_sound_complete _ _ _ _ _).1 (by decide)
 
 end Hawk.Rex
